@@ -164,6 +164,16 @@ def generate(rng, tier):
     ]
     tg.append({"k": "union", "name": names.fresh(), "ver": [1, 0], "fs": [["v%d" % i, u8 if i % 3 else {"k": "prim", "p": "uint", "w": 1 + i % 11, "c": "sat"}] for i in range(257)]})
     tg.append({"k": "struct", "name": names.fresh(), "ver": [1, 0], "fs": [["h", u8], ["u", dict(tg[-1], name=names.fresh())], ["t", {"k": "prim", "p": "bool"}]]})
+    # the 16-bit tag boundary: a union of 2**16 variants inside a structure (the offset of the member after it carries the tag width;
+    # the union itself is emitted to Coq as a generated term, see tygen.emit_ty)
+    u16 = {"k": "prim", "p": "uint", "w": 16, "c": "sat"}
+    for nv in (65535, 65536, 65537):
+        big = {"k": "union", "name": names.fresh(), "ver": [1, 0], "fs": [["v%d" % i, u8 if i % 2 == 0 else u16] for i in range(nv)]}
+        t = {"k": "struct", "name": names.fresh(), "ver": [1, 0], "fs": [["h", u8], ["u", big], ["t", {"k": "prim", "p": "bool"}]]}
+        for base in ([0], [8, 16]):
+            b = {"o": "leaf", "v": base, "how": "set", "raw": False}
+            cases.append({"kind": "fields", "type": t, "base": b, "plan": plan(rng, tygen.field_offset_ops(t, b), budget)})
+            streams.append("targeted")
     for t in tg:
         for base in ([0], [1], [8], [1, 16], [0, 8, 16], [3, 5, 64], [8, 16], [24]):
             b = {"o": "leaf", "v": base, "how": "set", "raw": False}
